@@ -508,7 +508,12 @@ func (p *uPacketPacker) MarshalInitialPacketPayload(pl payload, v protocol.Versi
 	// parse crypto data
 	cryptoData, err := clienthellod.ReassembleCRYPTOFrames(qchframes)
 	if err != nil {
-		return nil, err
+		// [UQUIC] A retransmission can collect several lost ranges of the ClientHello that
+		// are not adjacent (e.g. after a Retry or a PTO with part of the flight
+		// acknowledged). Such a packet is not one slice of the stream, so no frame builder
+		// can re-cut it; failing here would close the connection. Send the CRYPTO frames as
+		// the packer produced them.
+		return originalFrameBytes, nil
 	}
 
 	// [UQUIC] Compute baseOffset: the absolute QUIC crypto stream offset of cryptoData[0].
